@@ -119,7 +119,7 @@ classmodel("Coroutine", {})
 
 
 # ------------------------------------------------------------------ Sender._do_txn_commit
-@contract(MOD + ":Sender._do_txn_commit", ["C07"])
+@contract(MOD + ":Sender._do_txn_commit", ["C07", "C16"])
 def _(c):
     c.self_("Sender")
     c.param("commit_result", TR)
@@ -251,6 +251,15 @@ def _(c):
     c.local("batches", message_accumulator.NODES)
     c.local("done", Set(TASK))
     c.owns("self._txn_manager", "self._message_accumulator", "self.client")
+    # after an abortable error the partitions still waiting for registration are forgotten (error_transaction empties
+    # _pending_txn_partitions: its contract), so muting no longer keeps their batches back: nothing that was never sent may
+    # still be queued when the routine drains in that state
+    c.ghost("$only_retries_queued", BOOL, "False")
+    c.call("self._message_accumulator.fail_undrained", ghost={"$only_retries_queued": "True"},
+           modifies=["MessageAccumulator.*", "MessageBatch.*", "Future.state", "Future.nres", "Future.exc"],
+           note="MessageAccumulator.fail_undrained (under contract, accumulator_flush.py): afterwards every batch still queued "
+                "has been drained before (waits for a retry)")
+    c.call("txn_manager.wait_for_transaction_end", returns=Fut(NONE), note="the transaction's waiter future")
     c.call("self._maybe_wait_for_pid", havoc_all=True, raises=["KafkaError", "CancelledError"], note="suspends until a producer id is known")
     c.call("txn_manager.make_task_waiter", returns=TASK, post=["fresh(result)", "not result.done()"],
            modifies=["TransactionManager._task_waiter"], note="TransactionManager.make_task_waiter: a new pending future")
@@ -276,10 +285,13 @@ def _(c):
     c.loop(3, header="for task in done", invariants=[])
     c.loop(4, header="for task in tasks", invariants=[])
     TXN = "self._txn_manager is not None and self._txn_manager.transactional_id is not None"
+    c.replay_fn = lambda model, ob=None: {"script": _ROUTINE_SCRIPT}
     c.hook("before", "self._message_accumulator.drain_by_nodes", [
         # C07: "never writes to a partition before the coordinator acknowledged adding it to the transaction"
         ("assert", "partitions-not-yet-acknowledged-by-the-coordinator-are-muted",
          "implies(%s, forall(TP, lambda q: implies(q in self._txn_manager._pending_txn_partitions, q in kw_muted_partitions)))" % TXN),
+        ("assert", "with-an-abortable-error-nothing-unsent-is-left-to-drain",
+         "implies(%s and self._txn_manager.state == TransactionState.ABORTABLE_ERROR, $only_retries_queued)" % TXN),
         # C01: "never two batches of one partition in flight"
         ("assert", "partitions-with-a-request-in-flight-are-muted",
          "forall(TP, lambda q: implies(q in self._muted_partitions, q in kw_muted_partitions)) and kw_ignore_nodes == self._in_flight"),
@@ -289,3 +301,16 @@ def _(c):
         ("assert", "drained-partitions-muted-and-node-busy-before-the-next-suspension",
          "node_id in self._in_flight and forall(TP, lambda q: implies(q in node_batches, q in self._muted_partitions))"),
     ])
+
+
+# replay: a real transactional AIOKafkaProducer over a stubbed client whose coordinator refuses AddPartitionsToTxn for an
+# unauthorized topic (nothing of that request is added): no Produce may go to a partition that was never acknowledged
+_ROUTINE_SCRIPT = '''
+import sys, logging, warnings
+logging.disable(logging.CRITICAL)
+warnings.simplefilter("ignore")
+sys.path.insert(0, "/verif")
+from specs import abortable_replay
+bad = abortable_replay.sweep()
+VIOLATED = bool(bad); DETAIL = "%d of 4 scenarios: %s" % (len(bad), bad[:1])
+'''
